@@ -88,6 +88,10 @@ inline std::atomic<limit_read_fn> limit_read_callback{nullptr};
 // performs first-use initialisation again (defined in ada_idna.cpp).
 void reset_idna_tables() noexcept;
 
+// H7 (test only): Bidi class used by the IDNA validity check for a code point
+// (defined in ada_idna.cpp).
+uint8_t idna_bidi_class(uint32_t code_point) noexcept;
+
 // H5: when set, url_pattern components are always compiled to a regular
 // expression instead of one of the literal/wildcard/empty shortcuts.
 inline std::atomic<bool> force_regexp_components{false};
